@@ -465,6 +465,12 @@ pub struct ProgResult {
 
 pub fn explore_program(p: &Program, bound: usize, prop_c17: bool, replay: Option<Vec<usize>>) -> ProgResult {
     specs::verif::set_yield_hook(Some(hook));
+    crate::util::crash_note(&format!(
+        "{{\"engine\":\"mc-conc\",\"property\":\"{}\",\"oracle\":\"process crash inside a concurrent execution\",\"program\":{},\"schedule\":null,\"bound\":{}}}",
+        if prop_c17 { "C17" } else if ONLY_UNIQUE.with(|c| c.get()) { "C01" } else { "C10" },
+        serde_json::to_string(p).unwrap_or_default(),
+        bound.min(4)
+    ));
     let shared = Arc::new(Mutex::new(Shared { bound, ..Default::default() }));
     {
         let mut s = shared.lock().unwrap();
@@ -598,8 +604,25 @@ pub fn main() {
         let txt = std::fs::read_to_string(path).unwrap_or_else(|e| machinery_error(&format!("cannot read replay: {e}")));
         let v: serde_json::Value = serde_json::from_str(&txt).unwrap_or_else(|e| machinery_error(&format!("bad replay: {e}")));
         let p: Program = serde_json::from_value(v["program"].clone()).unwrap_or_else(|e| machinery_error(&format!("bad program: {e}")));
-        let sched: Vec<usize> = serde_json::from_value(v["schedule"].clone()).unwrap_or_default();
+        crate::util::crash_guard_tagged(&cli.root, v["property"].as_str().unwrap_or("C10"), "replay-crash");
         let c17 = v["property"].as_str() == Some("C17");
+        if v["schedule"].is_null() {
+            // a crash artefact names the program only: explore it again (the crash guard reports)
+            ONLY_UNIQUE.with(|c| c.set(v["property"].as_str() == Some("C01")));
+            let r = explore_program(&p, v["bound"].as_u64().unwrap_or(2) as usize, c17, None);
+            match r.violation {
+                Some((o, _)) => {
+                    println!("# {}", o);
+                    println!("VIOLATION property={} replay={}", v["property"].as_str().unwrap_or("?"), path.display());
+                    std::process::exit(1);
+                }
+                None => {
+                    println!("replay: property held on this program");
+                    std::process::exit(0);
+                }
+            }
+        }
+        let sched: Vec<usize> = serde_json::from_value(v["schedule"].clone()).unwrap_or_default();
         ONLY_UNIQUE.with(|c| c.set(v["property"].as_str() == Some("C01")));
         let r1 = explore_program(&p, 0, c17, Some(sched.clone()));
         let r2 = explore_program(&p, 0, c17, Some(sched));
@@ -620,6 +643,7 @@ pub fn main() {
             }
         }
     }
+    crate::util::crash_guard(&cli.root, &cli.property);
     let t0 = std::time::Instant::now();
     let progs = programs(cli.thorough());
     let results = crate::util::par_map(&progs, |(p, bound)| {
